@@ -119,17 +119,17 @@ impl Parseable for Action {
             ),
             unary!("-fprint0", Action::FilePrintNull, String::parse),
             unary!("-fprint", Action::FilePrint, String::parse),
-            terminated("-ls", multispace0).value(Action::List),
-            terminated("-print-file-fid", multispace0).value(Action::PrintFid),
+            literal("-ls").value(Action::List),
+            literal("-print-file-fid").value(Action::PrintFid),
             unary!(
                 "-printf",
                 Action::PrintFormatted,
                 quote_delimiter().and_then(Vec::<FormatElement>::parse)
             ),
-            terminated("-print0", multispace0).value(Action::PrintNull),
-            terminated("-print", multispace0).value(Action::Print),
-            terminated("-prune", multispace0).value(Action::Prune),
-            terminated("-quit", multispace0).value(Action::Quit),
+            literal("-print0").value(Action::PrintNull),
+            literal("-print").value(Action::Print),
+            literal("-prune").value(Action::Prune),
+            literal("-quit").value(Action::Quit),
         ))
         .context(label("action"))
         .parse_next(input)
@@ -281,10 +281,11 @@ pub fn token(input: &mut &str) -> PResult<Token> {
         // as an expression, eg `-atime` does not become `[Token::And, "time"]`
         terminated(alt(("-or", "-o")), alt((multispace1, eof))).value(Token::Or),
         terminated(alt(("-and", "-a")), alt((multispace1, eof))).value(Token::And),
-        Test::parse.map(Token::Test),
-        Action::parse.map(Token::Action),
-        GlobalOption::parse.map(Token::Global),
-        PositionalOption::parse.map(Token::Positional),
+        // A primary ends at a word boundary, so that `-empty-print` is not read as two primaries
+        terminated(Test::parse, boundary).map(Token::Test),
+        terminated(Action::parse, boundary).map(Token::Action),
+        terminated(GlobalOption::parse, boundary).map(Token::Global),
+        terminated(PositionalOption::parse, boundary).map(Token::Positional),
         fail.context(expected("invalid_token")),
     ))
     .context(label("syntax"))
@@ -297,7 +298,10 @@ fn _parse(input: &mut &str) -> PResult<(RunOptions, Exp)> {
     winnow::Parser::<&str, Vec<GlobalOption>, winnow::error::ContextError>::parse_next(
         &mut preceded(
             multispace0,
-            repeat(0.., terminated(GlobalOption::parse, multispace0)),
+            repeat(
+                0..,
+                terminated(terminated(GlobalOption::parse, boundary), multispace0),
+            ),
         ),
         input,
     )?
